@@ -524,7 +524,8 @@ impl Ctx {
         // merge the other build profile
         let mut extra_outcomes = 0u64;
         if let Some(fb) = self.fast_bin.clone() {
-            let part = format!("{}/harness/target/partial-{}-{}.json", self.verif_dir, self.prop, std::process::id());
+            let _ = std::fs::create_dir_all(format!("{}/evidence", self.verif_dir));
+            let part = format!("{}/evidence/.partial-{}-{}.json", self.verif_dir, self.prop, std::process::id());
             let st = std::process::Command::new(&fb)
                 .arg(self.tier_name())
                 .arg("--partial-out")
@@ -660,14 +661,16 @@ impl Ctx {
         for e in &self.machinery_errors {
             eprintln!("MACHINERY-ERROR: {}", e);
         }
-        if !self.machinery_errors.is_empty() {
-            return 2;
-        }
+        // violations are recorded case by case and reproduce from their replay files, so they are
+        // reported even if some other case made the harness itself fail
         if !unknown.is_empty() {
             for l in viol_lines {
                 println!("{}", l);
             }
             return 1;
+        }
+        if !self.machinery_errors.is_empty() {
+            return 2;
         }
         0
     }
